@@ -35,6 +35,10 @@ LONG_N = (63, 64, 65)
 
 def leaf(n):
     k = n["k"]
+    if n.get("logical") == "date" and k == "int":
+        import datetime
+
+        return [0, 1, -1, 18321, datetime.date(2020, 2, 29), datetime.date(1, 1, 1), datetime.date(9999, 12, 31), -719162, 2932896]
     if k == "null":
         return [None]
     if k == "boolean":
